@@ -8,6 +8,8 @@ lines before the first and after any record, last record with or without final n
 list of buffer sizes.  No bound on any size except where Go's `int` itself is the bound (text round trip).
 -/
 import Hts.Lemmas.FaiFileText
+set_option linter.unusedVariables false
+set_option linter.unusedSimpArgs false
 namespace Hts.Props.C19
 open Hts.Model.Fai
 open Hts.Spec.Fasta (File Rec Entry)
